@@ -21,6 +21,11 @@ def history_cases(prop, tier, seed):
     scen = {"C02": "table_after_mutation", "C04": "score_reuse", "C08": "local_opt_reuse"}[prop]
     for i in range(count):
         yield {"kind": "history", "scenario": scen, "seed": seed * 100003 + i, "idx": i}
+    if prop == "C08":
+        # one object, several DIFFERENT datasets of the same shape (same numbers of elements and rankings, default
+        # names) under the same scheme: nothing may be carried over from one call to the next
+        for i in range(60 * (1 if tier == "quick" else 10)):
+            yield {"kind": "history", "scenario": "local_opt_same_shape", "seed": seed * 100003 + 7000 + i, "idx": i}
 
 
 def _current(ds):
@@ -199,4 +204,44 @@ def check_history(case):
             steps.append(m)
         return {"fails": fails, "key": "%s|%s|%s" % (config, d, steps) if steps else None, "evals": evals,
                 "sample": {"config": config, "dataset": d, "sequence": steps}}
+    if scen == "local_opt_same_shape":
+        from bounded import C08
+        config = ["none", "BioCo"][case["idx"] % 2]
+        alg = C08.make_alg(config)
+        n, m = rng.choice([(4, 3), (5, 3), (4, 4)])
+        scheme = rng.choice([D.unifying(), D.unifying(.5)] + ([D.pseudo(), D.GENERIC_B] if config == "none" else []))
+        seq = []
+        for step in range(3):
+            d = []
+            for _ in range(m):                       # complete rankings with ties over the same n names
+                p_ = list(range(n))
+                rng.shuffle(p_)
+                r = []
+                for x in p_:
+                    if r and rng.random() < 0.3:
+                        r[-1].append(x)
+                    else:
+                        r.append([x])
+                d.append(r)
+            seq.append(d)
+            ds = A.mk_dataset(d)
+            try:
+                cons = alg.compute_consensus_rankings(ds, A.mk_scheme(scheme), False)
+            except Exception as e:
+                if C08.documented_refusal(e):
+                    break
+                raise
+            evals += 1
+            tab = O.cost_table(D.universe_of(d), d, scheme[0], scheme[1])
+            for r in cons.consensus_rankings:
+                mv = C08.improving_move(A.ranking_to_raw(r), tab)
+                if mv is not None:
+                    fails.append({"clause": "C08.prop.history", "site": "BioConsert object reused on another dataset of "
+                                  "the same shape (%s)" % config,
+                                  "detail": {"sequence_of_datasets": seq, "scheme": scheme, "move": mv,
+                                             "returned": A.ranking_to_raw(r)}})
+                    break
+            if fails:
+                break
+        return {"fails": fails, "key": "%s|%s" % (config, seq), "evals": evals, "sample": {"config": config, "sequence": seq[:1]}}
     raise ValueError(scen)
